@@ -260,7 +260,7 @@ func (x *Exec) applyZeroReqs(st *State, in ssa.Instruction) {
 		}
 		et := z.alloc.Type().Underlying().(*types.Pointer).Elem()
 		addr, lt := x.cellAddr(av.S, et, z.path)
-		_, cur := x.w.comp(st, x.w.sortOf(lt))
+		_, cur := x.w.comp(st, x.w.compKey(lt))
 		st.assume(app("=", app("select", cur, addr), x.w.zero(lt)))
 	}
 }
@@ -296,7 +296,7 @@ func (x *Exec) lazyStore(st *State, n *ssa.Store, path cellPath, alloc *ssa.Allo
 				assumeLeaves(app("idx", a, fmt.Sprint(i)), u.Elem(), app("select", val, fmt.Sprint(i)))
 			}
 		default:
-			_, cur := x.w.comp(st, x.w.sortOf(t))
+			_, cur := x.w.comp(st, x.w.compKey(t))
 			st.assume(app("=", app("select", cur, a), val))
 		}
 	}
